@@ -683,10 +683,12 @@ impl NodeRecordStore {
             }
         }
 
+        // Only a record that is accepted may enter the cache: a record refused for lack of
+        // space must not be served by `get`, nor be taken as stored by an identical retry.
+        self.prune_records_if_needed(key)?;
+
         // Store the new record to the cache
         self.records_cache.push_back(key.clone(), r.clone());
-
-        self.prune_records_if_needed(key)?;
 
         let filename = Self::generate_filename(key);
         let file_path = self.config.storage_dir.join(&filename);
